@@ -8,7 +8,10 @@ import (
 	"testing"
 	"time"
 
+	"testing/synctest"
+
 	"github.com/pion/turn/v5/verifharness/sim"
+	"github.com/pion/turn/v5/verifharness/simnet"
 	"github.com/pion/turn/v5/verifharness/wire"
 )
 
@@ -39,7 +42,14 @@ type fuzzGen struct {
 	peers []*net.UDPAddr
 }
 
-func (g *fuzzGen) tid() [12]byte { return g.w.NewTID() }
+func (g *fuzzGen) tid() (tid [12]byte) {
+	if g.w != nil {
+		return g.w.NewTID()
+	}
+	g.rng.Read(tid[:])
+
+	return tid
+}
 
 // validMsg builds a well-formed message of a random method/class with plausible attributes.
 func (g *fuzzGen) validMsg(signed bool) *wire.Builder {
@@ -379,7 +389,157 @@ func init() {
 			return 600
 		},
 		Run: func(t *testing.T, rng *rand.Rand, rec *sim.Rec, tier string, caseNo int) {
+			if caseNo%4 == 3 {
+				runC09Client(t, rng, rec, tier, caseNo/4)
+
+				return
+			}
 			runC09Server(t, rng, rec, tier, caseNo)
 		},
 	})
+}
+
+// ---------------------------------------------------------------- client side
+
+// runC09Client hands hostile datagrams to a real client's inbound path, directly through
+// Client.HandleInbound (with a blocked-call detector and the documented classification table as
+// oracle) and through its socket, in several client states, then checks that it still works.
+func runC09Client(t *testing.T, rng *rand.Rand, rec *sim.Rec, tier string, caseNo int) {
+	n := simnet.New()
+	srv, err := sim.NewScriptedServer(n, sim.ServerIP4, 3478)
+	if err != nil {
+		t.Fatal(err)
+	}
+	ts := &turnScript{rng: rand.New(rand.NewSource(rng.Int63())), relay: &net.UDPAddr{IP: sim.RelayIP4, Port: 50000}, nonce: "nonce-0", permW: [5]int{1, 0, 0, 0, 0}, bindW: [5]int{1, 0, 0, 0, 0}}
+	srv.SetHandler(ts.handler)
+	logs := sim.NewLogSink()
+	logs.Budget = 400000
+	rc, err := sim.NewRealClient(n, net.IPv4(10, 1, 0, 1).To4(), 5000, "10.0.0.1:3478", "alice", "pw-a", "verif.test", 100*time.Millisecond, logs, nil)
+	if err != nil {
+		t.Fatal(err)
+	}
+	if err := rc.Client.Listen(); err != nil {
+		t.Fatal(err)
+	}
+	x := &c13{t: t, rng: rng, rec: rec, net: n, srv: srv, rc: rc, ts: ts}
+	defer x.close()
+	state := []string{"no-allocation", "udp-allocation", "tcp-allocation", "udp-queue-full"}[caseNo%4]
+	peer := &net.UDPAddr{IP: net.IPv4(10, 2, 0, 1).To4(), Port: 7000}
+	x.peers = []*net.UDPAddr{peer}
+	var tcpAlloc interface{ Close() error }
+	switch state {
+	case "udp-allocation", "udp-queue-full":
+		conn, err := rc.Client.Allocate()
+		if err != nil {
+			rec.Inconclusive("allocate: %v", err)
+
+			return
+		}
+		x.conn = conn
+		_, _ = conn.WriteTo(c13Payload(0, 1, 20, rng), peer) // creates a permission and a binding
+		time.Sleep(time.Second)
+		if state == "udp-queue-full" {
+			for k := 0; k < 1024; k++ {
+				x.inboundInd(peer, []byte(fmt.Sprintf("fill-%d", k)))
+			}
+			time.Sleep(time.Millisecond)
+		}
+	case "tcp-allocation":
+		a, err := rc.Client.AllocateTCP()
+		if err != nil {
+			rec.Inconclusive("allocateTCP: %v", err)
+
+			return
+		}
+		tcpAlloc = a
+		for i := 0; i < pick(rng, []int{0, 9, 10}); i++ {
+			b := wire.NewBuilder(wire.MethodConnectionAttempt, wire.ClassIndication, [12]byte{7, byte(i)})
+			b.AddXorAddr(wire.AttrXORPeerAddress, net.IPv4(10, 2, 0, byte(1+i)).To4(), 9000+i)
+			b.AddU32(wire.AttrConnectionID, uint32(1000+i))
+			srv.Send(rc.Conn.Addr(), b.Bytes(), 0)
+		}
+		time.Sleep(time.Millisecond)
+	}
+	dummy := &sim.RawClient{User: "u", Pass: "p", Realm: "r", Nonce: "n"}
+	g := &fuzzGen{rng: rng, att: dummy, peers: []*net.UDPAddr{peer, {IP: net.ParseIP("fd00:2::1"), Port: 7}}}
+	other := &net.UDPAddr{IP: net.IPv4(10, 9, 9, 9).To4(), Port: 999}
+	for bi := 0; bi < 6 && len(rec.Violations()) == 0; bi++ {
+		for k := 0; k < 30; k++ {
+			in, class := g.input()
+			if rng.Intn(3) == 0 {
+				// responses / indications a server could send, then mutated
+				b := g.validMsg(false).Bytes()
+				if len(b) >= 2 {
+					cls := uint8(1 + rng.Intn(3))
+					m := pick(rng, []uint16{wire.MethodData, wire.MethodConnectionAttempt, wire.MethodAllocate, wire.MethodChannelBind, wire.MethodBinding})
+					tf := wire.TypeField(m, cls)
+					b[0], b[1] = byte(tf>>8), byte(tf)
+				}
+				if rng.Intn(2) == 0 {
+					b = g.mutate(b)
+				}
+				in, class = b, "server-like"
+			}
+			from := srv.Addr
+			if rng.Intn(3) == 0 {
+				from = other
+			}
+			rec.Ev("client-input/" + class)
+			rec.FP("client/%s/%s/from-server=%v", state, class, from == srv.Addr)
+			if rng.Intn(2) == 0 {
+				// through the socket (the client's own read loop)
+				rc.Conn.Inject(in, from)
+
+				continue
+			}
+			// direct call with blocked-call detector
+			type res struct {
+				handled bool
+				err     error
+			}
+			done := make(chan res, 1)
+			go func() {
+				h, err := rc.Client.HandleInbound(in, from)
+				done <- res{h, err}
+			}()
+			synctest.Wait()
+			select {
+			case r := <-done:
+				_, _, isChan := wire.ParseChannelData(in)
+				isSTUN := len(in) >= 20 && binary.BigEndian.Uint32(in[4:8]) == wire.MagicCookie
+				want := isChan || isSTUN || from == srv.Addr
+				if r.handled != want {
+					rec.Violate("client-classification", fmt.Sprintf("handled=%v", r.handled), "HandleInbound(%x..., from server=%v) handled=%v err=%v; documented classification says handled=%v (ChannelData=%v STUN=%v)", head(in), from == srv.Addr, r.handled, r.err, want, isChan, isSTUN)
+				}
+				if !r.handled && r.err != nil {
+					rec.Violate("client-classification", "false-with-error", "HandleInbound returned (false, %v): the documented table excludes this combination", r.err)
+				}
+			default:
+				rec.Violate("client-blocked", state, "HandleInbound(%x... len %d) is durably blocked (state %s)", head(in), len(in), state)
+
+				return
+			}
+		}
+		time.Sleep(time.Millisecond)
+		// liveness: a transaction completes; relayed data still gets through
+		x.liveness("after-hostile-input/" + state)
+		if x.conn != nil && state == "udp-allocation" {
+			x.queue = nil
+			buf := make([]byte, 70000)
+			for { // drop whatever well-formed indications the fuzz produced
+				_ = x.conn.SetReadDeadline(time.Now().Add(time.Millisecond))
+				if _, _, err := x.conn.ReadFrom(buf); err != nil {
+					break
+				}
+			}
+			x.inboundInd(peer, []byte(fmt.Sprintf("still-alive-%d", bi)))
+			time.Sleep(time.Millisecond)
+			x.drainAndCompare()
+		}
+		rec.Ev("client-liveness-probes")
+	}
+	if tcpAlloc != nil {
+		_ = tcpAlloc.Close()
+	}
+	rec.SetSample(map[string]any{"side": "client", "state": state, "log_calls": logs.TotalCalls()})
 }
